@@ -38,7 +38,7 @@ def run(ctx):
     n_int = sum(1 for e in want_int if e["interrupted"])
     ctx.coverage["interruption_scenarios"] = len(want_int)
     ctx.coverage["interruption_scenarios_that_interrupted"] = n_int
-    if not want_int or n_int * 2 < len(want_int):
+    if not ctx.violations and (not want_int or n_int * 2 < len(want_int)):
         raise vlib.ToolError(f"only {n_int} of {len(want_int)} interruption scenarios interrupted a write: the stalled-peer part did not run as intended")
     ctx.coverage["evaluations"] += sum(len(e["segments"]) for e in evs)
     ctx.coverage["traces_validated_against_impl"] += len(evs) - len(res["mismatches"])
